@@ -460,3 +460,22 @@ def finalize(m, tier):
                        'note': 'float noise cannot refuse most exact-capacity transfers; a different failure'},
             'case': {'kind': 'sweep', 'idx': 0}, 'seq': 0, 'tail': []}]
     return out
+
+
+# --------------------------------------------------------------------------------------------------
+# directed edge workloads shared between several checks (pv/edges.py)
+
+_plan_without_edges, _run_job_without_edges = plan, run_job
+
+
+def plan(tier, seed):
+    from .common import edges_jobs
+    return _plan_without_edges(tier, seed) + edges_jobs(tier)
+
+
+def run_job(job):
+    if job['kind'] == 'edges':
+        from pv.edges import edges
+        from .common import run_cases
+        return run_cases(job, edges)
+    return _run_job_without_edges(job)
